@@ -16,7 +16,9 @@ Definition bytes := list N.
 (** * Ideal signatures *)
 Inductive sigd :=
 | SVote (signer kind h r : N) (target : bytes)   (* genuine vote signature by global key [signer] *)
-| SProposal (signer : N) (hash : bytes) (r : N)      (* genuine proposal signature *)
+| SProposal (signer : N) (content : bytes) (r : N)   (* genuine proposal signature over the signed
+                                                       proposal fields (height, round, previous block hash,
+                                                       app state hash, data id, annotations) - NOT the hash *)
 | SJunk (n : N).                                 (* any other byte string *)
 
 Definition sigd_eqb (a b : sigd) : bool :=
@@ -33,8 +35,8 @@ Definition KPrecommit : N := 1.
 
 Definition verify_vote (key kind h r : N) (t : bytes) (s : sigd) : bool :=
   sigd_eqb s (SVote key kind h r t).
-Definition verify_prop (key : N) (hash : bytes) (r : N) (s : sigd) : bool :=
-  sigd_eqb s (SProposal key hash r).
+Definition verify_prop (key : N) (content : bytes) (r : N) (s : sigd) : bool :=
+  sigd_eqb s (SProposal key content r).
 
 (** * Wire values *)
 Record ssig := mk_ssig { ss_kid : bytes; ss_sig : sigd }.
@@ -74,7 +76,9 @@ Record hdr := mk_hdr {
   hd_next : valset
 }.
 
-Record ph := mk_ph { ph_hdr : hdr; ph_round : N; ph_key : option N; ph_sig : sigd }.
+(** [ph_content] identifies the bytes the proposer signs (C15: they do not cover the block hash,
+    the validator sets or the previous commit proof). *)
+Record ph := mk_ph { ph_hdr : hdr; ph_round : N; ph_key : option N; ph_sig : sigd; ph_content : bytes }.
 
 Record vmsg := mk_vmsg { vm_h : N; vm_r : N; vm_pkh : bytes; vm_proofs : list (bytes * list ssig) }.
 
@@ -590,7 +594,7 @@ Fixpoint handle_ph_loop (fuel : nat) (backfilled : bool) (s : kstate) (p : ph) :
         match proposer with
         | None => Ok (s, HandleProposedHeaderBadSignature)
         | Some key =>
-          if negb (verify_prop key (hd_hash hd) (ph_round p) (ph_sig p)) then Ok (s, HandleProposedHeaderBadSignature)
+          if negb (verify_prop key (ph_content p) (ph_round p) (ph_sig p)) then Ok (s, HandleProposedHeaderBadSignature)
           else if negb (hd_height hd =? k_init_h s) && negb (bytes_eqb (hd_prev hd) prev_hash)
           then Ok (s, HandleProposedHeaderBadBlockHash)
           else if negb (bytes_eqb (vs_pkh prev_vs) (cp_pkh (hd_pcp hd)))
